@@ -174,6 +174,62 @@ func (c *Ctx) Take() bool {
 // it is used only in replay mode fast-forwarding).
 func (c *Ctx) Index() int64 { return c.idx - 1 }
 
+// SpaceName is the name of the current sub-space.
+func (c *Ctx) SpaceName() string { return c.space }
+
+// RunCaseInChild re-runs exactly the current case (space, index) in a fresh process of the same harness binary with
+// extra environment, and adopts the violations the child recorded. It is used when an exploration has to be repeated
+// with one execution per process (process-global state of the code under test survives from one execution to the next).
+// It returns the child's exit error and its stderr tail.
+func (c *Ctx) RunCaseInChild(env []string) (stderr string, err error) {
+	dir := os.Getenv("VERIF_SCRATCH")
+	if dir == "" {
+		dir = os.TempDir()
+	}
+	f, e := os.CreateTemp(dir, "child-*.json")
+	if e != nil {
+		return "", e
+	}
+	out := f.Name()
+	f.Close()
+	defer os.Remove(out)
+	args := []string{"-worker", "0", "-n", "1", "-tier", c.Tier, "-seed", strconv.FormatInt(c.Seed, 10), "-out", out, "-budget", "1h",
+		"-replay-idx", strconv.FormatInt(c.idx-1, 10), "-replay-space", c.space}
+	if c.Mode != "" {
+		args = append(args, "-mode", c.Mode)
+	}
+	cmd := exec.Command(os.Args[0], args...)
+	cmd.Env = append(os.Environ(), env...)
+	var errb strings.Builder
+	cmd.Stderr = &tailWriter{b: &errb, max: 8000}
+	err = cmd.Run()
+	if err != nil {
+		return errb.String(), err
+	}
+	b, e := os.ReadFile(out)
+	if e != nil {
+		return errb.String(), e
+	}
+	var wo workerOut
+	if e := json.Unmarshal(b, &wo); e != nil {
+		return errb.String(), e
+	}
+	for sig, g := range wo.Viol {
+		d, ok := c.out.Viol[sig]
+		if !ok {
+			d = &violGroup{}
+			c.out.Viol[sig] = d
+		}
+		d.Count += g.Count
+		for _, v := range g.First {
+			if len(d.First) < 3 {
+				d.First = append(d.First, v)
+			}
+		}
+	}
+	return errb.String(), nil
+}
+
 // Expired reports whether the internal deadline passed (enumeration should stop).
 func (c *Ctx) Expired() bool {
 	if c.ReplayIdx >= 0 {
